@@ -143,4 +143,6 @@ theorem maxL_spec (l : List Rat) (hne : l ≠ []) : maxL l ∈ l ∧ ∀ x ∈ l
     · rw [h]; exact List.mem_cons_self
     · exact h
 
+theorem singTol_pos : 0 < singTol := by unfold singTol; norm_num
+
 end ArrModel.C15
